@@ -85,7 +85,7 @@ func checkFieldMap(c *an.Ctx, rule, fnKey, targetType string, want map[string]st
 		return
 	}
 	c.Analysed(fnKey)
-	got := map[string]string{}
+	got := map[string][]string{}
 	an.Instrs(fn, func(in ssa.Instruction) {
 		st, ok := in.(*ssa.Store)
 		if !ok {
@@ -113,9 +113,9 @@ func checkFieldMap(c *an.Ctx, rule, fnKey, targetType string, want map[string]st
 			break
 		}
 		if ap, ok := an.AccessPath(v); ok {
-			got[field] = ap
+			got[field] = append(got[field], ap)
 		} else {
-			got[field] = "?" + v.Name()
+			got[field] = append(got[field], "?"+v.Name())
 		}
 	})
 	var names []string
@@ -125,14 +125,20 @@ func checkFieldMap(c *an.Ctx, rule, fnKey, targetType string, want map[string]st
 	sort.Strings(names)
 	for _, f := range names {
 		key := fmt.Sprintf("%s %s.%s", fnKey, targetType, f)
-		g, ok := got[f]
+		gs, ok := got[f]
+		wrong := ""
+		for _, g := range gs {
+			if !strings.HasSuffix(g, want[f]) {
+				wrong = g
+			}
+		}
 		switch {
 		case !ok:
 			c.Bad(rule, key, fn.Pos(), "the conversion never sets this field")
-		case !strings.HasSuffix(g, want[f]):
-			c.Bad(rule, key, fn.Pos(), "the field is set from %s instead of …%s: a setting of another kind or address family takes effect here", g, want[f])
+		case wrong != "":
+			c.Bad(rule, key, fn.Pos(), "the field is set from %s instead of …%s: a setting of another kind or address family takes effect here", wrong, want[f])
 		default:
-			c.Ok(rule, key, fn.Pos(), "set from %s", g)
+			c.Ok(rule, key, fn.Pos(), "set from %s", strings.Join(gs, ", "))
 		}
 	}
 }
